@@ -18,6 +18,7 @@ func init() {
 		ID:    "C01",
 		Level: "exploration",
 		Rule: "one case = one seeded Writer scenario (cluster layout, produce version cap, writer configuration, concurrent callers, per-broker fault script over the n-th produce request) run to completion and judged offline by R1-R5 over the broker journal, the wire tap and the call/Completion history; " +
+			"split list: the same with BatchBytes 300-600 and messages of a sixth to a half of it, so that one call is split over 2-5 batches of a partition, and 40 % of the first ten produce requests per broker answered with permanent codes, temporary codes, drops or timeouts-after-append, so that the batches of one call end differently. " +
 			"signature = (config class, fault sequence, per-partition caller interleaving hash); non-trivial = at least one fault fired or at least two callers interleaved in a partition log",
 		Assumptions: []string{
 			"fakenet delivers bytes in order and reports exactly which bytes reached a client Read; an attempt is acknowledged iff applied, answered without error and the whole response was delivered",
